@@ -282,19 +282,31 @@ def _install_index():
 
 # -- IndexLevel tree invariant -------------------------------------------------------------
 
+def _len_without_refresh(index):
+    """number of labels of an index WITHOUT triggering the cache refresh of a grow-only index: len(index) would rebuild the
+    label / position arrays and so hide exactly the stale-cache states the workloads try to reach (a monitor must not change
+    what it observes)."""
+    if getattr(index, '_recache', False):
+        n = getattr(index, '_positions_mutable_count', None)
+        if n is not None:
+            return n
+    labels = getattr(index, '_labels', None)
+    return len(labels) if labels is not None else len(index)
+
+
 def level_invariant(level):
     """Every node's offset equals the number of leaves before it (within its parent);
     targets and index have equal length."""
     def leaves(node):
         if node.targets is None:
-            return len(node.index)
+            return _len_without_refresh(node.index)
         return sum(leaves(t) for t in node.targets)
 
     def walk(node):
         if node.targets is None:
             return
-        if len(node.targets) != len(node.index):
-            raise _Broken('level_targets_len', targets=len(node.targets), labels=len(node.index))
+        if len(node.targets) != _len_without_refresh(node.index):
+            raise _Broken('level_targets_len', targets=len(node.targets), labels=_len_without_refresh(node.index))
         run = 0
         for t in node.targets:
             if t.offset != run:
